@@ -30,6 +30,14 @@ func main() {
 		cmdPlanReplay(a)
 	case "plan-trace-check":
 		cmdPlanTraceCheck(a)
+	case "cli-replay":
+		cmdCliReplay(a)
+	case "conc-worker":
+		cmdConcWorker(a)
+	case "conc-replay":
+		cmdConcReplay(a)
+	case "conc-trace-check":
+		cmdConcTraceCheck(a)
 	case "replay":
 		cmdReplay(a)
 	case "lex-trace-check":
